@@ -11,6 +11,7 @@ State-internal / sm-internal rows:   EVT [guard] / actions
 import json, re, sys, os
 
 CONFIGS = ["back", "back_fct", "back11", "mp11", "mp11_fct", "mp11_fpa"]
+EXTRA_CONFIGS = ["back_circ"]     # back with queue_container_circular (capacity 64 set by the driver); only where a plan asks for it
 
 # ---------------------------------------------------------------- parsing
 def parse_guard(s):
@@ -367,7 +368,7 @@ def emit_machines_puml(d, cfg, L, sname):
 def emit_cpp(d, cfg, opts=None, fe="functor"):
     opts = opts or {}
     mp11 = cfg.startswith("mp11"); b11 = cfg.startswith("back11"); fct = "_fct" in cfg; fpa = "_fpa" in cfg
-    circ = opts.get("circular", False)
+    circ = opts.get("circular", False) or cfg.endswith("_circ")
     L = []
     L.append("// generated by gen/gen.py from corpus/%s.json, configuration %s -- do not edit" % (d.name, cfg))
     if mp11: L.append("#define VCFG_MP11 1")
@@ -529,6 +530,9 @@ def emit_cpp(d, cfg, opts=None, fe="functor"):
             L.append("  if (sub_active<M_%s,%s >(f)) { o << \",\"; dump_dt_%s(f.template get_state<%s&>(), o); }" % (mn, subT(s2), s2, subT(s2)))
         L.append("}")
         L.append("static void stamp_%s(M_%s& f, int i) { f.vinst = i;" % (mn, mn))
+        if circ:
+            L.append("  if (f.get_message_queue().capacity() < 64) f.get_message_queue().set_capacity(64);")
+            if d.has_defer(m): L.append("  if (f.get_deferred_queue().capacity() < 64) f.get_deferred_queue().set_capacity(64);")
         for s in subs:
             L.append("  stamp_%s(f.template get_state<%s&>(), i);" % (s, subT(s)))
         L.append("}")
@@ -542,10 +546,13 @@ def emit_cpp(d, cfg, opts=None, fe="functor"):
             return sname(owner[sn], sn)
         terms = ' << "," << '.join('(t.template is_state_active<%s >() ? "true" : "false")' % qtype(sn) for sn in d.snames if sn != d.root)
         L.append('static std::string gen_isa(Top& t) { std::ostringstream o; o << "[" << %s << "]"; return o.str(); }' % terms)
+        # active-state visitor (default mode: active states, recursive): names in visiting order
+        L.append('static std::string gen_vis(Top& t) { std::ostringstream o; o << "["; bool first = true; t.visit([&](auto& st) { o << (first ? "" : ",") << "\\"" << SNAME[std::remove_reference_t<decltype(st)>::verif_sid] << "\\""; first = false; }); o << "]"; return o.str(); }')
     else:
         L.append('static std::string gen_isa(Top&) { return "[]"; }')
+        L.append('static std::string gen_vis(Top&) { return "[]"; }')
     L.append("static void gen_stamp(Top& t, int i) { stamp_%s(t, i); }" % d.root)
-    L.append('static void gen_dump(Top& t, std::ostream& o) { o << "\\"st\\":{"; dump_st_%s(t, o); o << "},\\"q\\":{"; dump_q_%s(t, o); o << "},\\"dt\\":{"; dump_dt_%s(t, o); o << "},\\"isa\\":" << gen_isa(t) << ",\\"fl\\":" << flags_of(t); }'
+    L.append('static void gen_dump(Top& t, std::ostream& o) { o << "\\"st\\":{"; dump_st_%s(t, o); o << "},\\"q\\":{"; dump_q_%s(t, o); o << "},\\"dt\\":{"; dump_dt_%s(t, o); o << "},\\"isa\\":" << gen_isa(t) << ",\\"vis\\":" << gen_vis(t) << ",\\"fl\\":" << flags_of(t); }'
              % (d.root, d.root, d.root))
     if mp11:
         L.append("static long gen_drain(Top& t, bool single) { return (long)(single ? t.process_event_pool(1) : t.process_event_pool()); }")
